@@ -60,6 +60,7 @@ from .util import Results, solve
 
 I = z3.IntSort()
 EB = z3.Function("ensure_bytes", I, I)
+TRUTHY = z3.Function("is_truthy", I, z3.BoolSort())
 NONE_ID = z3.Int("the_None_object")
 _c = itertools.count()
 
@@ -90,6 +91,11 @@ class ObjV:
 
     def is_none(self, eng, p):
         return self.z == NONE_ID
+
+    def truth(self, eng, p):
+        # a value that is not None may still be falsy ('' / b'' / 0): truthiness is an arbitrary predicate of the object, so
+        # `if value:` and `if value is not None:` are different conditions (an empty-string value must be stored, not dropped)
+        return z3.And(self.z != NONE_ID, TRUTHY(self.z))
 
 
 class KVEntry:
